@@ -39,7 +39,7 @@ SHARDS = {'quick': 1, 'thorough': 16}
 SHARD_TIMEOUT = {'quick': 300, 'thorough': 1500}
 
 SIZES = {'quick': dict(datasets=6, bases=14, nested=2, max_bound_rows=7),
-         'thorough': dict(datasets=6, bases=16, nested=3, max_bound_rows=8)}
+         'thorough': dict(datasets=5, bases=13, nested=3, max_bound_rows=8)}
 
 FINDINGS = {
     'order_drops_distinct': 'C24-ORDER-BY-DROPS-AUTO-DISTINCT',
